@@ -96,6 +96,8 @@ def signature(step, rec, why):
     nodes = list(all_nodes(tree))
     vmax = max([rlen(x["v"]) for x in nodes] or [0])
     nmax = max([rlen(x["n"]) for x in nodes] or [0])
+    if exp.get("ret") == "error" and obs.get("ret") != "error":
+        return "parse:accepted:unmatched_section_end:%s" % st
     if obs.get("ret") != exp.get("ret"):
         # refused document: classify by the most extreme element it contains
         if any(46 in [b for b, _ in x["n"]] for x in nodes):
@@ -216,7 +218,7 @@ def gen_docs(ck, n, nitems):
                 val = [rng.choice([120, 32, 34])] * 1 + [120] * rng.choice([248, 249, 250, 253, 254, 255, 256, 1000])
             elif r < 0.13:
                 val = [121] * rng.choice([65534, 65535, 65536, 65537, 70000])
-            d = {"g": rng.choice(gaps), "g2": rng.choice(gaps), "b1": rng.choice(blanks), "b2": rng.choice(blanks),
+            d = {"g": rng.choice(gaps), "g2": rng.choice(gaps), "b1": rng.choice(blanks), "b2": rng.choice(blanks + ["com"]),
                  "b3": rng.choice(blanks), "term": rng.choice(["nl", "nl", "com", "eof"])}
             if d["term"] == "com" and d["b3"] == "none":
                 d["b3"] = "sp"
